@@ -400,6 +400,9 @@ func famPlan(tr *Trace, scratch string, seed int64, tier string, workers int) M 
 		}
 	}
 	recs(nil)
+	if os.Getenv("VERIF_PLAN_SPELLINGS") == "0" { // (the binding self-test works on a small trace)
+		spell = nil
+	}
 	nSpell := 0
 	for _, s := range spell {
 		for _, sh := range []shape{{"file", "s/f1"}, {"dir", ""}, {"symlink", "tgt"}, {"file", "s/d"}, {"file", "s"}} { // ("s": a directory with a subdirectory)
